@@ -205,6 +205,72 @@ func C14(run *mon.Run) {
 		}(off)
 	}
 	wg.Wait()
+	// ---- several checkpoints of ONE generator, all restored later (stored states must not alias)
+	for it := 0; it < run.Pick(40, 600); it++ {
+		r := run.Rand(fmt.Sprintf("ckpt-%d", it))
+		seed := mon.RandBytes(r, 32)
+		cust := mon.RandBytes(r, it%13)
+		g, err := random.NewChacha20PRG(seed, cust)
+		if err != nil {
+			continue
+		}
+		var states [][]byte
+		var offs []uint64
+		off := uint64(0)
+		for k := 0; k < 2+r.IntN(5); k++ {
+			states = append(states, g.Store())
+			offs = append(offs, off)
+			n := []int{0, 1, 5, 63, 64, 65, 100, 257}[r.IntN(8)]
+			g.Read(make([]byte, n))
+			off += uint64(n)
+		}
+		for k := range states {
+			g2, err := random.RestoreChacha20PRG(states[k])
+			run.Eval(1)
+			if err != nil {
+				run.Violate("C14:restore-refuses-valid-state", err.Error(), nil)
+				continue
+			}
+			b := make([]byte, 150)
+			g2.Read(b)
+			if want := ref.ChaCha20Stream(seed, padNonce(cust), offs[k], 150); !bytes.Equal(b, want) {
+				run.Violate("C14:checkpoint-aliasing", fmt.Sprintf("state #%d stored at offset %d (of %v on one generator) restores to a generator that does not continue at that offset", k, offs[k], offs), map[string]any{"seed": mon.Hex(seed), "customizer": mon.Hex(cust), "offsets": offs})
+				break
+			}
+		}
+		run.Shape(fmt.Sprintf("checkpoints|%d", len(states)))
+	}
+	// ---- states whose byte counter is large (what Store() returns after that much output): the
+	// layout is seed || customizer || LE64(count); block counters stay below 2^32 - 8
+	{
+		r := run.Rand("big-counters")
+		var counters []uint64
+		for _, base := range []uint64{1 << 31, 1<<32 - 64, 1<<32 - 1, 1 << 32, 1<<32 + 1, 1<<32 + 64, 1<<32 + 100, 1 << 33, 1<<33 + 7, 1 << 35, 3<<36 + 12345, 1<<38 - 2000} {
+			counters = append(counters, base, base+uint64(r.IntN(64)))
+		}
+		for _, c := range counters {
+			seed := mon.RandBytes(r, 32)
+			cust := mon.RandBytes(r, int(c%13))
+			st := append(append(append([]byte{}, seed...), padNonce(cust)...), make([]byte, 8)...)
+			binary.LittleEndian.PutUint64(st[44:], c)
+			g, err := random.RestoreChacha20PRG(st)
+			run.Eval(1)
+			if err != nil {
+				run.Violate("C14:restore-refuses-valid-state", err.Error(), map[string]any{"counter": c})
+				continue
+			}
+			b := make([]byte, 130)
+			g.Read(b)
+			if want := ref.ChaCha20Stream(seed, padNonce(cust), c, 130); !bytes.Equal(b, want) {
+				run.Violate("C14:restore-large-counter", fmt.Sprintf("a state with byte counter %d (>= 2^31) restores to a generator that does not continue at that offset", c), map[string]any{"state": mon.Hex(st), "counter": c})
+				break
+			}
+			if st2 := g.Store(); binary.LittleEndian.Uint64(st2[44:]) != c+130 {
+				run.Violate("C14:store-layout", fmt.Sprintf("counter after restore at %d and 130 bytes is %d", c, binary.LittleEndian.Uint64(st2[44:])), nil)
+			}
+		}
+		run.Shape("large-counters")
+	}
 	// ---- rejected lengths
 	r := run.Rand("lens")
 	for l := 0; l <= 80; l++ {
